@@ -14,9 +14,10 @@ Line-protocol driver for the C19 model (query pipeline).
                              and runs, then a goes on (the window inside completeStage)
   end                        final observation
   leaf-new | leaf-send <nil|err>     LeafExecuteContext.SendResponse
-  leafreq <node> ... | leafreq - | leafreq x    one request on the real leaf path whose stages form this tree
+  leafreq <data|meta|meta-notfound> (<node> ... | - | o | x)    one request on the real leaf path whose stages form this tree
                              (`-`: the request is refused before a pipeline exists and the task
-                             handler answers; `x`: the task handler's own pool rejects the request): the tree is run to the end (lowest runnable goroutine
+                             handler answers; `o`: a request type Process omits; `x`: the task handler's own pool rejects the
+                             request; meta-notfound: the suggest callback answers a not-found failure as an empty result): the tree is run to the end (lowest runnable goroutine
                              first — by the theorems the answer does not depend on the schedule) and
                              the responses `LeafExecuteContext.SendResponse` produces are reported
 
@@ -86,6 +87,15 @@ def runToGate : Nat → State → Nat → State
     | none => s
 
 def fuel : Nat := 100000
+
+/-- who answers a request: the regenerated facts about Process's return value and the pool -/
+def reqCfg : ReqCfg := ⟨Generated.C19.processReturnsPipelineErr, Generated.C19.submitRejectNotifies⟩
+
+def showResponses (rs : List Bool) : String :=
+  let shown := match rs with
+    | [] => "-"
+    | r :: _ => if r then "err" else "nil"
+  s!"responses={rs.length} resp={shown}"
 
 /-- run to the end: always the lowest-numbered goroutine that still has an instruction -/
 def runAll : Nat → State → State
@@ -166,20 +176,16 @@ def step (st : St) (ws : List String) : St × String :=
     match st.pipe with
     | some s => ({ st with pipe := none }, final s)
     | none => (st, "bad-op")
-  | ["leafreq", "-"] => (st, "responses=1 resp=err")
-  | ["leafreq", "x"] =>
-    -- the task handler's own pool rejects the request: answered only if Submit notifies the handler
-    (st, if cfg.rejectNotifies then "responses=1 resp=err" else "responses=0 resp=-")
-  | "leafreq" :: toks =>
-    match parseTree toks with
-    | some root =>
+  | ["leafreq", _, "-"] => (st, showResponses (noPipelineResponses reqCfg .refused))
+  | ["leafreq", _, "o"] => (st, showResponses (noPipelineResponses reqCfg .omitted))
+  | ["leafreq", _, "x"] => (st, showResponses (noPipelineResponses reqCfg .rejected))
+  | "leafreq" :: kind :: toks =>
+    match parseTree toks, (if kind = "data" || kind = "meta" then some false
+                            else if kind = "meta-notfound" then some true else none) with
+    | some root, some tolerated =>
       let s := runAll fuel (Pipeline.init root)
-      let rs := responses s.sh.fired
-      let shown := match rs with
-        | [] => "-"
-        | r :: _ => if r then "err" else "nil"
-      (st, s!"responses={rs.length} resp={shown}")
-    | none => (st, "bad-op")
+      (st, showResponses (runResponses reqCfg tolerated s))
+    | _, _ => (st, "bad-op")
   | ["leaf-new"] => ({ st with leaf := Leaf.init }, "ok")
   | ["leaf-send", e] =>
     if e = "nil" || e = "err" then
